@@ -3,7 +3,7 @@
   Model: `Model/Ast.lean` (`Cond.eval`, `cmpOpEval`, `containsCheck`), `Model/Render.lean`
   (`.cond`, `.case_` arms of `renderN`), `Model/CondParse.lean` (`parse_condition`).
 -/
-import LiquidModel.Model.Render
+import LiquidModel.Lemmas.Monad
 import LiquidModel.Model.CondParse
 namespace Liquid.C06
 open Liquid
@@ -20,7 +20,7 @@ theorem C06_one_branch (fuel : Nat) (env : Env) (c : Cond) (m b : Bool) (thn : T
       else match els with
         | some t => renderList (renderN fuel env) t rt w
         | none => (.ok (), rt, w) := by
-  simp only [renderN, hc]
+  simp only [renderN, M.bind'_getSt, hc, M.bind'_lift_ok]
   by_cases h : b = m
   · simp [h]
   · cases els <;> simp [h]
@@ -29,7 +29,7 @@ theorem C06_one_branch (fuel : Nat) (env : Env) (c : Cond) (m b : Bool) (thn : T
 theorem C06_condition_error (fuel : Nat) (env : Env) (c : Cond) (m : Bool) (thn : Tmpl) (els : Option Tmpl)
     (rt : Rt) (w : W) (hc : c.eval rt.layers = .err) :
     renderN (fuel + 1) env (.cond c m thn els) rt w = (.err, rt, w) := by
-  simp [renderN, hc]
+  simp only [renderN, M.bind'_getSt, hc, M.bind'_lift_err]
 
 /-- **unless is the negation of if**: `unless c` behaves exactly like `if` on a condition with the
 opposite truth value. -/
@@ -61,7 +61,7 @@ theorem C06_case (fuel : Nat) (env : Env) (target : Expr) (value : V) (arms : Li
       | none => (match els with
           | some t => renderList (renderN fuel env) t rt w
           | none => (.ok (), rt, w)) := by
-  simp only [renderN, ht, hp]
+  simp only [renderN, M.bind'_getSt, ht, hp, M.bind'_lift_ok]
   cases pick with
   | some b => rfl
   | none => cases els <;> rfl
